@@ -230,8 +230,14 @@ class Vector(MutableSequence[TScalar]):
         # Restore the pickled value type instead of re-deriving it from the first value: an int
         # vector may hold bool values (bool is a subclass of int).
         (values,) = args
+        # The constructor adds an empty units entry when there is none. A copy of a vector whose
+        # entry was removed has none either (and a shallow copy shares the original's dictionary).
+        properties = kwargs.get("extended_properties")
+        absent = properties is not None and UNIT_DESCRIPTION not in properties
         self = cls([], **kwargs)
         self._values = list(values)
+        if absent:
+            del self._extended_properties[UNIT_DESCRIPTION]
         return self
 
     def __repr__(self) -> str:
